@@ -338,7 +338,7 @@ def parse_tlc_output(path):
                 r.violated = "Deadlock"
                 in_err = True
                 continue
-            if line.startswith("Error: The postcondition") or "Postcondition" in line and "violated" in line:
+            if line.startswith("Error: Postcondition"):
                 r.violated = "Postcondition"
                 continue
             if line.startswith("Error:") and r.violated is None:
@@ -349,12 +349,17 @@ def parse_tlc_output(path):
     return r
 
 
-def iter_printed(path, tag):
-    """Yield the JSON payload of every PrintT(<<tag, json>>) line in a TLC output file."""
+def iter_printed(path, tag, keep=None):
+    """Yield the JSON payload of every PrintT(<<tag, json>>) line in a TLC output file.
+    keep(i) selects which of the matching lines (0-based) are wanted."""
     prefix = '<<"%s", "' % tag
+    i = -1
     with open(path, errors="replace") as f:
         for line in f:
             if line.startswith(prefix):
+                i += 1
+                if keep is not None and not keep(i):
+                    continue
                 body = line.rstrip("\n")
                 body = body[len(prefix):]
                 if body.endswith('">>'):
@@ -363,31 +368,31 @@ def iter_printed(path, tag):
                 yield unescape_tla(body)
 
 
+_UNESC = re.compile(r"\\(.)")
+_UNESC_MAP = {"n": "\n", "t": "\t"}
+
+
 def unescape_tla(s):
-    out = []
-    i = 0
-    while i < len(s):
-        c = s[i]
-        if c == "\\" and i + 1 < len(s):
-            n = s[i + 1]
-            if n == '"':
-                out.append('"'); i += 2; continue
-            if n == "\\":
-                out.append("\\"); i += 2; continue
-            if n == "n":
-                out.append("\n"); i += 2; continue
-            if n == "t":
-                out.append("\t"); i += 2; continue
-        out.append(c)
-        i += 1
-    return "".join(out)
+    """Undo TLC's string printing (\\\" and \\\\ escapes)."""
+    if "\\" not in s:
+        return s
+    return _UNESC.sub(lambda m: _UNESC_MAP.get(m.group(1), m.group(1)), s)
 
 
-def extract_printed(tlc_out, tag, dest):
-    """Write all payloads with the tag to dest (ndjson); returns the count."""
+def iter_printed_raw(path, tag):
+    """Yield the raw text after `<<"tag", ` of every matching line (for non-string payloads)."""
+    prefix = '<<"%s", ' % tag
+    with open(path, errors="replace") as f:
+        for line in f:
+            if line.startswith(prefix):
+                yield line.rstrip("\n")[len(prefix):]
+
+
+def extract_printed(tlc_out, tag, dest, keep=None):
+    """Write all (or the kept) payloads with the tag to dest (ndjson); returns the count."""
     n = 0
     with open(dest, "w") as fo:
-        for p in iter_printed(tlc_out, tag):
+        for p in iter_printed(tlc_out, tag, keep):
             fo.write(p)
             fo.write("\n")
             n += 1
